@@ -129,6 +129,25 @@ def case_crystal(ctx, rng, wd, kind):
     os.remove(fn)
 
 
+def files_match(ctx, path, returned, key, info):
+    """the binary file holds the returned array exactly (written as <name>.npy unless the name already ends in .npy); a .dat / .txt
+    name additionally gets a text table at the written precision"""
+    pn = path if path.endswith(".npy") else path + ".npy"
+    good = os.path.exists(pn) and np.array_equal(np.load(pn), returned, equal_nan=True)
+    msg = "binary file missing or different from the returned array"
+    if good and not path.endswith(".npy"):
+        try:
+            t = np.loadtxt(path, ndmin=2)
+            good = t.shape == returned.shape and bool(np.all(np.abs(t - returned) <= 0.5000001e-6 + 1e-12 * np.abs(returned)))
+            msg = "text table differs from the returned array beyond the written precision"
+        except Exception as e:  # noqa: BLE001
+            good, msg = False, f"text table unreadable: {e!r}"
+    ctx.check("output_files", bool(good), key, msg, info)
+    for q in (pn, path):
+        if os.path.exists(q):
+            os.remove(q)
+
+
 def case_random(ctx, rng, wd, l=None):
     from PyMatterSim.neighbors import calculate_neighbors as cn
     from PyMatterSim.neighbors.freud_neighbors import cal_neighbors
@@ -237,11 +256,19 @@ def case_random(ctx, rng, wd, l=None):
     src = Q if cg else q
     tag = "/coarse" if cg else "/local"
     s2 = (np.abs(src) ** 2).sum(axis=2)
-    ok, ql = ctx.call("boo_3d.ql_Ql", b.ql_Ql, cg, None, data=info)
+    ext = str(rng.choice([".npy", ".dat", ".txt"]))
+    fq = os.path.join(wd, "ql" + ext) if rng.random() < 0.3 else None
+    ok, ql = ctx.call("boo_3d.ql_Ql", b.ql_Ql, cg, fq, data=info)
+    if ok and fq:
+        files_match(ctx, fq, np.asarray(ql), "boo_3d.ql_Ql/file", info)
     if ok:
         ctx.close("ql", np.asarray(ql), np.sqrt(4 * np.pi / (2 * l + 1) * s2), "boo_3d.ql_Ql" + tag, rtol=1e-10, atol=1e-12, what="q_l", data=info)
         ctx.check("ql_bounds", bool(np.all(np.asarray(ql) >= 0) and np.all(np.asarray(ql) <= 1 + 1e-10)), "boo_3d.ql_Ql/bounds", lambda: f"q_l outside [0,1]: max {np.max(ql)}", info)
-    ok, ww = ctx.call("boo_3d.w_W_cap", b.w_W_cap, cg, None, None, data=info)
+    fw1, fw2 = (os.path.join(wd, "w" + ext), os.path.join(wd, "wcap" + ext)) if rng.random() < 0.3 else (None, None)
+    ok, ww = ctx.call("boo_3d.w_W_cap", b.w_W_cap, cg, fw1, fw2, data=info)
+    if ok and fw1:
+        files_match(ctx, fw1, np.asarray(ww[0]), "boo_3d.w_W_cap/file_w", info)
+        files_match(ctx, fw2, np.asarray(ww[1]), "boo_3d.w_W_cap/file_wcap", info)
     if ok:
         wref = wigner.w_l(src, l)
         ctx.close("w", np.asarray(ww[0]), wref, "boo_3d.w_W_cap/w" + tag, rtol=1e-9, atol=1e-12, scale=max(1e-6, np.abs(wref).max()), what="w_l", data=info)
